@@ -153,6 +153,8 @@ fn twin_tree_builder() {
         }
         k += 1;
     }
+    // reached only if no enumeration loop was cut short by the unwinding bound
+    kani::cover!(true, "all cases executed");
 }
 fn tree_builder_case(k: usize, m: usize) {
     let input: [u8; 4] = [1, 2, 3, 4];
